@@ -81,5 +81,23 @@ pub fn run(_args: &Args) -> i32 {
     println!("pbi [5] true {}", show(&s.project_by_ids(&[5], true)));
     println!("pbi [6] false {}", show(&s.project_by_ids(&[6], false)));
     let _ = HashMap::<String, String>::new();
+    // exclude with a top-level list
+    let other = s.project(&["l.item.u"]).unwrap();
+    println!("exclude(s, project(l.item.u)) = {}", show(&s.exclude(&other).unwrap()));
+    let a3 = AS::new(vec![st("w", vec![AF::new("l", DataType::List(Arc::new(st("item", vec![i("u"), i("v")]))), true)])]);
+    let s3 = Schema::try_from(&a3).unwrap();
+    let other3 = s3.project(&["w.l.item.u"]).unwrap();
+    println!("nested: exclude(s3, project(w.l.item.u)) = {}", show(&s3.exclude(&other3).unwrap()));
+    // intersection with large_list
+    for large in [false, true] {
+        let mk = |ch: Vec<AF>| {
+            let item = Arc::new(st("item", ch));
+            AS::new(vec![AF::new("c", if large { DataType::LargeList(item) } else { DataType::List(item) }, true)])
+        };
+        let sa = Schema::try_from(&mk(vec![i("p"), i("q")])).unwrap();
+        let sb = Schema::try_from(&mk(vec![i("p")])).unwrap();
+        println!("large={large} intersection -> {:?}", sa.intersection(&sb).map(|x| show(&x)).map_err(|e| e.to_string().chars().take(60).collect::<String>()));
+        println!("large={large} intersection_ignore_types -> {:?}", sa.intersection_ignore_types(&sb).map(|x| show(&x)).map_err(|e| e.to_string().chars().take(60).collect::<String>()));
+    }
     0
 }
